@@ -604,3 +604,28 @@ Example rt_result :
   look (fst (extract_cmd true rt_fs [] [x2f; x6f] [] [RNode (u_of_t rt_tree)])) [rt_o; rt_d; rt_l]
     = Some (NLink [x2e; x2e; x2f; x61]).
 Proof. vm_compute. split; reflexivity. Qed.
+
+(* --no-wrap of a lone file of one chunk gives a raw root, of a lone symlink a symlink-typed root:
+   a root has no name, `car extract` reports zero files and touches nothing *)
+Theorem extract_raw_root fs cwd outdir :
+  extract_cmd true fs cwd outdir [] [RRaw] = (fs, XOk 0).
+Proof. reflexivity. Qed.
+
+Theorem extract_symlink_root fs cwd outdir root tg :
+  (forall k, look fs (Nat.iter k (@removelast name) cwd) = Some NDir) ->
+  eval_symlinks_str fs cwd outdir = Some root ->
+  look fs (phys_of cwd root) = Some NDir ->
+  extract_cmd true fs cwd outdir [] [RNode (ULink tg)] = (fs, XOk 0).
+Proof.
+  intros Hc He Hdir.
+  assert (Hwf : np_wf root) by (eapply eval_symlinks_str_wf; exact He).
+  assert (Hg : good fs cwd root) by (eapply eval_symlinks_good; exact He).
+  assert (Ha : alldirs fs cwd root).
+  { destruct (good_cases _ _ _ Hg) as [Ha|[init [last [d0 [E [_ [_ Hl]]]]]]]; [exact Ha|].
+    rewrite phys_of_nbase, E in Hdir. rewrite Hdir in Hl. discriminate. }
+  pose proof (joined_nil cwd root Hwf) as Hjn.
+  unfold extract_cmd. rewrite path_segments_empty. cbn [extract_roots]. unfold extract_root.
+  rewrite He. change np_root with (mknp true 0 []). rewrite extract_dir_eq.
+  rewrite (resolve_ok_root cwd root Hwf fs Ha). rewrite Hjn.
+  rewrite (mkdir_all_existing fs cwd root Ha Hdir). reflexivity.
+Qed.
